@@ -1,6 +1,6 @@
 PROP = dict(
     modules=["Shangrla.Props.C09", "Shangrla.Props.RiskLimit", "Shangrla.Props.RiskLimitStyle",
-             "Shangrla.Props.RiskLimitPlurality", "Shangrla.Props.RiskLimitComparison", "Shangrla.Props.RiskLimitIID",
+             "Shangrla.Props.RiskLimitPlurality", "Shangrla.Props.RiskLimitComparison", "Shangrla.Props.RiskLimitIID", "Shangrla.Props.RiskLimitIRVComparison",
              "Shangrla.Props.RiskLimitIRV"],
     theorems=["Shangrla.C09.pvalues_are_tests", "Shangrla.C09.pvalues_are_tests_pos", "Shangrla.C09.contest_max",
               "Shangrla.C09.audit_max", "Shangrla.C09.audit_max_nan_iff", "Shangrla.C09.audit_max_largest",
@@ -25,6 +25,7 @@ PROP = dict(
               "Shangrla.RiskLimit.comparison_null", "Shangrla.RiskLimit.comparison_risk_limit",
               "Shangrla.RiskLimit.hitIIDG_map", "Shangrla.RiskLimit.audit_risk_limit_iid",
               "Shangrla.RiskLimit.audit_risk_limit_iid_run",
+              "Shangrla.RiskLimit.irv_comparison_wrong_winner_risk_limit", "Shangrla.RiskLimit.example_irv_comparison_exact",
               # with C04 (RAIRE sufficiency + social-choice lemma) and C14 (audit-side IRV assorters): a wrong IRV
               # winner makes some RAIRE assertion false on the true ballots, its assorter averages <= 1/2, risk limit
               "Shangrla.RiskLimit.irv_wrong_outcome_false_assertion", "Shangrla.RiskLimit.raire_wrong_outcome_false_assertion",
